@@ -84,6 +84,11 @@ func Lib() *ty.Env {
 	add("ES", "", ty.St(ty.Field{Name: "S1", Embedded: true, T: ty.N(5)}, f("A", b("string"))), false) // 42
 	// float-keyed maps as components (a destination's map may hold NaN keys, which cannot be deleted one by one)
 	add("FM", "", ty.St(f("M", ty.M(b("float64"), ty.Sl(b("int")))), f("K", ty.M(ty.N(2), b("string"))), f("N", b("int"))), false) // 43
+	// an imported struct whose ONLY unexported field is the blank one (the `_ struct{}` keyed-literal idiom), and one
+	// whose unexported fields start with letters outside ASCII
+	xo := add("XO", "ext", ty.St(f("A", b("int")), f("B", ty.Sl(b("string")))), false) // 44
+	e.Decls[xo].Under.Blanks = map[int]string{1: "struct{}"}
+	add("XU", "ext", ty.St(f("ünicode", ty.Sl(b("int"))), f("名前", b("string")), f("Ünicode", b("int"))), true) // 45
 	return e
 }
 
